@@ -49,6 +49,9 @@ def run(ctx: Ctx):
     iterators(ctx)
     raw_argument(ctx)
     who_may_call(ctx)
+    from .common import generic_lints
+
+    generic_lints(ctx)
 
 
 def write_inventory(ctx: Ctx):
